@@ -67,11 +67,9 @@ func (m *Mast) savePathForRoot(ctx context.Context, path []pathEntry) error {
 			entry.node.Link[entry.linkIndex] = nil
 		}
 	}
-	if !path[0].node.isEmpty() {
-		m.root = path[0].node
-	} else {
-		m.root = nil
-	}
+	// an emptied tree keeps its (dirty) empty top node, like a
+	// never-populated tree, so that IsDirty reports the change
+	m.root = path[0].node
 	return nil
 }
 
@@ -428,7 +426,7 @@ func (m *Mast) shrink(ctx context.Context) error {
 		}
 		m.root = newLink
 	} else {
-		m.root = nil
+		m.root = &newNode
 	}
 	m.height--
 	if m.debug {
